@@ -53,6 +53,9 @@ pub const BROKEN_LEXERS: &[(&str, &str)] = &[
 pub enum Op {
     /// (variant name, with %grmtools header)
     EditGrammar(String, bool),
+    /// same, with a constant in an action replaced by `salt`: an unbounded family of grammars
+    /// with identical token sets (so that only the mtime comparison can tell them apart)
+    EditGrammarSalted(String, bool, u32),
     EditLexer(String),
     SetParserOpt(String, Option<String>),
     SetLexerOpt(String, Option<String>),
@@ -213,6 +216,12 @@ pub fn execute(exe: &Path, sc: &BScenario, dir: &Path) -> BReport {
             Op::EditGrammar(n, h) => {
                 gname = (n.clone(), *h);
                 std::fs::write(&gy, grammar_text(n, *h)).unwrap();
+                stamp(&gy, now);
+                dirty = true;
+            }
+            Op::EditGrammarSalted(n, h, salt) => {
+                gname = (format!("{n}#{salt}"), *h);
+                std::fs::write(&gy, grammar_text(n, *h).replace("\"INT\" { 0 }", &format!("\"INT\" {{ {salt} }}"))).unwrap();
                 stamp(&gy, now);
                 dirty = true;
             }
@@ -472,7 +481,11 @@ pub fn generate(r: &mut Rng, max_ops: usize) -> BScenario {
         let op = match roll {
             0..=13 => {
                 let (n, _) = *r.pick(GRAMMARS);
-                Op::EditGrammar(n.to_string(), r.chance(80))
+                if r.chance(50) {
+                    Op::EditGrammarSalted(n.to_string(), r.chance(80), r.below(1000) as u32)
+                } else {
+                    Op::EditGrammar(n.to_string(), r.chance(80))
+                }
             }
             14..=19 => {
                 let pool: Vec<&str> = BROKEN_GRAMMARS.iter().map(|x| x.0).chain(["gbh-bad-header"]).collect();
